@@ -100,6 +100,12 @@ func (s *Sniffer) SniffQuic() (d string, err error) {
 	s.quicNextRead = s.buf.Len()
 	sni, err := extractSniFromTls(quicutils.NewLinearLocator(s.quicCryptos))
 	if err != nil {
+		if errors.Is(err, ErrNotFound) {
+			// The ClientHello is complete and carries no server name (for
+			// instance HTTP/3 to an IP literal). Later datagrams cannot add
+			// one, so do not ask the caller to hold the flow for more.
+			return "", ErrNotFound
+		}
 		s.needMore = true
 		return "", ErrNotFound
 	}
